@@ -29,7 +29,7 @@ ASSUMPTIONS = [
     "tasks / timers created by the harness (user-call runners, the scenario driver) are excluded by identity; every other live task or pending TimerHandle belongs to the client",
 ]
 PROBES = ["c15.during_connect_latency", "c15.during_backoff", "c15.mid_handshake", "c15.message_pending", "c15.at_heartbeat", "c15.after_fault",
-          "c15.reinit", "c15.reinit_changed_installation", "c15.socket_class", "c15.shutdown_twice"]
+          "c15.reinit", "c15.reinit_changed_installation", "c15.socket_class", "c15.shutdown_twice", "c15.quick_reinit_with_pending", "c15.heartbeat_after_reinit"]
 
 
 def budget(tier: str) -> int:
@@ -110,9 +110,12 @@ def generate(rng, index: int, tier: str) -> dict:
     if rng.random() < 0.15:
         tl.append({"at": t_s + rng.choice([0.0, G.EPS, 1.0]), "op": stop_op, "second": True})
         info["twice"] = True
-    t_idle_end = t_s + rng.choice([1000.0, 1500.0])
+    # mostly >= 1000 idle seconds; sometimes a quick re-init while queued messages would still be alive
+    idle = rng.choice([1000.0, 1000.0, 1500.0, 2.0, 10.0])
+    t_idle_end = t_s + idle
+    info["idle"] = idle
     # sending after shutdown must raise the not-open error
-    t_send = t_s + G.dyadic(rng, 1.0, 900.0)
+    t_send = t_s + G.dyadic(rng, 1.0, min(900.0, idle - 0.5))
     if sock:
         tl.append({"at": t_send, "op": "user.send", "msg": {"kind": "ac_status_request"}, "policy": "idem", "after_stop": True})
     else:
@@ -137,6 +140,10 @@ def generate(rng, index: int, tier: str) -> dict:
             tl.append({"at": t_r, "op": "user.init", "reinit": True})
             tl.append({"at": t_r + 6.0, "op": "user.snapshot", "label": "reinit"})
         end = t_r + 8.0
+        if not sock and rng.random() < 0.4:
+            # the re-initialised object must behave like a fresh one: heartbeat (and AT4 poll) running again
+            end = t_r + 640.0
+            info["watch_heartbeat"] = True
     tl.sort(key=lambda s: s["at"])
     return {"gen": gen, "mode": "socket" if sock else "api", "installation": inst, "knobs": knobs, "timeline": tl, "end": end, "info": info}
 
@@ -206,6 +213,8 @@ def execute(sc: dict) -> dict:
         nontrivial = True
     if info.get("twice"):
         probes["c15.shutdown_twice"] = 1
+    if info.get("where") == "pending" and info.get("idle", 1000.0) < 20.0 and info.get("reinit"):
+        probes["c15.quick_reinit_with_pending"] = 1
     # 1. nothing after shutdown returned (until a re-open)
     for e in ev:
         if e[0] <= seq_ret or e[0] >= seq_reopen:
@@ -225,6 +234,13 @@ def execute(sc: dict) -> dict:
     # 2. leak check at the end of the idle period
     leak = next((l for l in w.leaks if l["label"] == "idle_end"), None)
     if leak is not None and not V:
+        # a user call that has not returned yet (init() inside its own 5 s wait) owns its timeout timer
+        busy_init = [w.calls[i] for i in leak["busy_user_calls"] if w.calls[i]["op"] == "user.init"]
+        if busy_init:
+            own = {c["t_call"] + 5.0 for c in busy_init}
+            leak = dict(leak, timers=[t for t in leak["timers"] if not (t[1] == "Timeout._on_timeout" and any(abs(t[0] - o) < 1e-6 for o in own))])
+            if info.get("idle", 1000.0) < 20.0:
+                leak["busy_user_calls"] = [i for i in leak["busy_user_calls"] if w.calls[i]["op"] != "user.init"]
         if leak["tasks"]:
             V.append(viol("C15.leak.task", {"tasks": leak["tasks"][:6], "where": info.get("where")}, task=leak["tasks"][0]))
         elif leak["timers"]:
@@ -271,6 +287,22 @@ def execute(sc: dict) -> dict:
                     diffs = refmodel.compare(m.expected(), snap)
                     if diffs:
                         V.append(viol("C15.model_after_reinit", {"diffs": diffs[:4]}, attr=diffs[0]["attr"]))
+                if info.get("watch_heartbeat") and reopen["t_ret"] is not None and not V:
+                    probes["c15.heartbeat_after_reinit"] = 1
+                    t_h = reopen["t_ret"]
+                    vr = [e["t"] for e in w.console.rx if e["reading"]["kind"] == "version_request" and e["t"] > t_h + 1.0]
+                    for k in (1, 2):
+                        if not any(abs(t - (t_h + 300.0 * k)) < 0.5 for t in vr):
+                            V.append(viol("C15.no_heartbeat_after_reinit", {"reinit_done": t_h, "version_requests": vr[:6], "missing_tick": k}))
+                            break
+                    if len(vr) > 2 and not V:
+                        V.append(viol("C15.duplicate_heartbeat_after_reinit", {"reinit_done": t_h, "version_requests": vr[:8]}))
+                    if gen == 4 and not V:
+                        gr = [e["t"] for e in w.console.rx if e["reading"]["kind"] == "group_status_request" and e["t"] > t_h + 1.0]
+                        if not any(abs(t - (t_h + 300.0)) < 0.5 for t in gr):
+                            V.append(viol("C15.no_group_poll_after_reinit", {"reinit_done": t_h, "group_requests": gr[:6]}))
+                        elif len(gr) > 2:
+                            V.append(viol("C15.duplicate_group_poll_after_reinit", {"group_requests": gr[:8]}))
                 # the handshake after re-init is the normal one
                 hs = common.handshake(gen)
                 rx = [e["reading"]["kind"] for e in w.console.rx if e["t"] >= reopen["t_call"] and e["t"] <= reopen["t_ret"] + 0.1]
